@@ -22,7 +22,6 @@ SFTP file object
 
 
 from binascii import hexlify
-from collections import deque
 import socket
 import threading
 import time
@@ -70,7 +69,8 @@ class SFTPFile(BufferedFile):
         self._prefetch_extents = {}
         self._prefetch_lock = threading.Lock()
         self._saved_exception = None
-        self._reqs = deque()
+        # request numbers of WRITEs whose reply has not been seen yet
+        self._reqs = set()
 
     def __del__(self):
         self._close(async_=True)
@@ -92,22 +92,31 @@ class SFTPFile(BufferedFile):
         if self._closed:
             return
         self.sftp._log(DEBUG, "close({})".format(u(hexlify(self.handle))))
-        if self.pipelined:
-            self.sftp._finish_responses(self)
-        BufferedFile.close(self)
         try:
-            if async_:
-                # GC'd file handle could be called from an arbitrary thread
-                # -- don't wait for a response
-                self.sftp._async_request(type(None), CMD_CLOSE, self.handle)
-            else:
-                self.sftp._request(CMD_CLOSE, self.handle)
-        except EOFError:
-            # may have outlived the Transport connection
-            pass
-        except (IOError, socket.error):
-            # may have outlived the Transport connection
-            pass
+            # Flush buffered data first, so that the replies to those writes
+            # are collected below as well; a write the server rejected is
+            # re-raised here, at the latest.
+            BufferedFile.close(self)
+            if self.pipelined and not async_:
+                self.sftp._finish_responses(self)
+        finally:
+            # Always release the server-side handle, even if a write failed.
+            self._closed = True
+            try:
+                if async_:
+                    # GC'd file handle could be called from an arbitrary
+                    # thread -- don't wait for a response
+                    self.sftp._async_request(
+                        type(None), CMD_CLOSE, self.handle
+                    )
+                else:
+                    self.sftp._request(CMD_CLOSE, self.handle)
+            except EOFError:
+                # may have outlived the Transport connection
+                pass
+            except (IOError, socket.error):
+                # may have outlived the Transport connection
+                pass
 
     def _data_in_prefetch_requests(self, offset, size):
         k = [
@@ -196,23 +205,23 @@ class SFTPFile(BufferedFile):
     def _write(self, data):
         # may write less than requested if it would exceed max packet size
         chunk = min(len(data), self.MAX_REQUEST_SIZE)
+        # Register the request under this file, so that its reply reaches
+        # _async_response() (which saves an error status for re-raising) no
+        # matter which request on this session happens to read it.
         sftp_async_request = self.sftp._async_request(
-            type(None),
+            self,
             CMD_WRITE,
             self.handle,
             int64(self._realpos),
             data[:chunk],
         )
-        self._reqs.append(sftp_async_request)
+        self._reqs.add(sftp_async_request)
         if not self.pipelined or (
             len(self._reqs) > 100 and self.sftp.sock.recv_ready()
         ):
-            while len(self._reqs):
-                req = self._reqs.popleft()
-                t, msg = self.sftp._read_response(req)
-                if t != CMD_STATUS:
-                    raise SFTPError("Expected status")
-                # convert_status already called
+            # collect the replies that are still outstanding; raises if the
+            # server rejected one of the writes
+            self.sftp._finish_responses(self)
         return chunk
 
     def settimeout(self, timeout):
@@ -580,6 +589,17 @@ class SFTPFile(BufferedFile):
                 self._prefetch_extents[num] = (offset, length)
 
     def _async_response(self, t, msg, num):
+        if num in self._reqs:
+            # reply to one of our (pipelined) writes: save an error and
+            # re-raise it on the next drain or on close
+            self._reqs.discard(num)
+            try:
+                if t != CMD_STATUS:
+                    raise SFTPError("Expected status")
+                self.sftp._convert_status(msg)
+            except Exception as e:
+                self._saved_exception = e
+            return
         data = None
         if t == CMD_STATUS:
             try:
